@@ -273,6 +273,17 @@ TypedOnly(env, s, d, D) ==
 RECURSIVE ValidObj(_, _, _, _)
 RECURSIVE ValidRef(_, _, _, _)
 
+\* generateStructType: additionalProperties next to properties become map[string]string / float64 / int /
+\* bool / []any, anything else (object, several types, no type, a $ref) interface{}
+AddlTyped(a, v, D) ==
+  IF Has(a, "ref") \/ Len(Types(a)) # 1 THEN TRUE
+  ELSE CASE a.type[1] = "string"  -> v.t \in {"str", "fmt"}
+         [] a.type[1] = "number"  -> v.t \in {"num", "big"}
+         [] a.type[1] = "integer" -> v.t \in {"num", "big"} /\ (IsIntegral(v) \/ "AddlIntTruncates" \in D)
+         [] a.type[1] = "boolean" -> v.t = "bool"
+         [] a.type[1] = "array"   -> v.t = "arr"
+         [] OTHER -> TRUE
+
 EnumOK(s, d) == \E i \in DOMAIN s.enum : JEq(s.enum[i], d)
 
 Valid(env, s, d, D, ctx, lim) ==
@@ -330,9 +341,16 @@ Valid(env, s, d, D, ctx, lim) ==
                        unchecked == "NamedArrayUnvalidated" \in D /\ ctx # "field"
                        items == IF Has(s, "items") THEN s.items ELSE [type |-> <<>>]
                        sub == IF ctx = "field" THEN "field" ELSE "elem"
+                       \* deviation "ArrayItemConstraintsIgnored": validators exist per struct FIELD (and per declared
+                       \* primitive type); a primitive items schema written inline only picks the element's Go type,
+                       \* its bounds / length / pattern are never checked
+                       bare == /\ "ArrayItemConstraintsIgnored" \in D /\ ~Has(items, "ref") /\ ~Has(items, "enum")
+                               /\ Main(items) \in {"integer", "number", "string"}
+                               /\ ~(Has(items, "format") /\ items.format \in Formats)
                    IN And3({B3(unchecked \/ LenOK(l, Len(d.a), D))}
-                           \cup {Valid(env, items, d.a[i], D, sub,
-                                       IF Main(items) = "array" /\ ~Has(items, "ref") THEN l ELSE NoLim)
+                           \cup {IF bare /\ d.a[i].t # "null" THEN B3(TypedOnly(env, items, d.a[i], D))
+                                 ELSE Valid(env, items, d.a[i], D, sub,
+                                            IF Main(items) = "array" /\ ~Has(items, "ref") THEN l ELSE NoLim)
                                  : i \in DOMAIN d.a})
          [] T = "object"  -> IF d.t # "obj" THEN Rej
                              ELSE IF ctx = "elem" /\ "DeclaredArrayElemUnvalidated" \in D
@@ -345,6 +363,11 @@ ValidRef(env, s, d, D) ==
   ELSE LET t == EnvGet(env, s.ref.n) IN
        \* deviation: a definition with neither `type` nor `properties` is referenced as interface{}
        IF "UntypedEnumDefUnvalidated" \in D /\ ~Has(t, "type") /\ ~Has(t, "properties") THEN Acc
+       \* deviation: a nullable primitive definition is declared as `type N *int` -- a pointer type cannot
+       \* carry an unmarshaler, so its bounds / length / pattern are never checked
+       ELSE IF "NullableDefUnvalidated" \in D /\ Nullable(t) /\ Main(t) \in {"integer", "number", "string"}
+               /\ ~Has(t, "enum") /\ ~(Has(t, "format") /\ t.format \in Formats)
+            THEN (IF d.t = "null" THEN Acc ELSE B3(TypedOnly(env, t, d, D)))
        ELSE Valid(env, t, d, D, "decl", NoLim)
 
 ValidObj(env, s, d, D) ==
@@ -374,7 +397,14 @@ ValidObj(env, s, d, D) ==
       extraOK == CASE addl.k = "b" -> IF extra = {} \/ addl.b THEN {Acc} ELSE {Un}
                    \* additionalProperties:false is not enforced by the tool and no listed property
                    \* demands it (C02 speaks only of objects that allow them) => unspecified
-                   [] addl.k = "s" -> {Valid(env, addl.s, ObjVal(d, k), D, "addl", NoLim) : k \in extra}
+                   \* deviation "AddlValuesTypedOnly": next to declared properties the values of typed
+                   \* additionalProperties are only decoded into map[string]<primitive> (mapstructure):
+                   \* constraints, element types, enum lists and $ref targets are ignored
+                   [] addl.k = "s" /\ "AddlValuesTypedOnly" \in D /\ Props(s) # <<>> ->
+                        {IF ObjVal(d, k).t = "null" THEN Valid(env, addl.s, ObjVal(d, k), D, "addl", NoLim)
+                         ELSE B3(AddlTyped(addl.s, ObjVal(d, k), D)) : k \in extra}
+                   [] addl.k = "s" /\ ~("AddlValuesTypedOnly" \in D /\ Props(s) # <<>>) ->
+                        {Valid(env, addl.s, ObjVal(d, k), D, "addl", NoLim) : k \in extra}
   IN And3({reqOK} \cup propsOK \cup extraOK \cup foldOK)
 
 (* ---------- decoded values (C02, C08, C09) ---------- *)
@@ -401,8 +431,10 @@ Decoded(env, s, d, v, D) ==
   IF Has(s, "ref") THEN
        (\/ ~EnvHas(env, s.ref.n)
         \/ LET t == EnvGet(env, s.ref.n) IN
+           \* deviation UntypedEnumDefUnvalidated: the field is an interface{} that holds the document as it is
+           IF "UntypedEnumDefUnvalidated" \in D /\ ~Has(t, "type") /\ ~Has(t, "properties") THEN JEq(v, d)
            \* object items of a declared array are an anonymous struct: no unmarshaler, so no defaults
-           IF "DeclaredArrayElemUnvalidated" \in D /\ Main(t) = "array" /\ Has(t, "items")
+           ELSE IF "DeclaredArrayElemUnvalidated" \in D /\ Main(t) = "array" /\ Has(t, "items")
            THEN Decoded(env, [t EXCEPT !.items = StripDefaults(@)], d, v, D)
            ELSE Decoded(env, t, d, v, D))
   ELSE IF d.t = "null" THEN TRUE
